@@ -176,7 +176,7 @@ func (s *Subscriber) poll(ctx context.Context) (_progress uint64, _new bool, _er
 	for _, peer := range peers {
 		res, err := s.poller.Poll(ctx, peer)
 		if err != nil {
-			return start - s.poller.NextInstance, newCertificatesReceived > 0, err
+			return s.poller.NextInstance - start, newCertificatesReceived > 0, err
 		}
 
 		log.Debugf("polled %s for instance %d, got %+v", peer, s.poller.NextInstance, res)
@@ -235,5 +235,5 @@ func (s *Subscriber) poll(ctx context.Context) (_progress uint64, _new bool, _er
 		metrics.pollEfficiency.Record(ctx, efficiency)
 	}
 
-	return start - s.poller.NextInstance, newCertificatesReceived > 0, nil
+	return s.poller.NextInstance - start, newCertificatesReceived > 0, nil
 }
